@@ -42,8 +42,8 @@ RULE = ("Generated time grids (1-12 steps, non-uniform / uniform / scalar dt), s
         "asperity, initial states, dyadic excitations; parameters fixed, tuple-prior, user model or (OU) default "
         "steady-state x0 for the model classes. Each output is affine in the standard-normal latents: the columns of L "
         "are the responses to the unit excitations (f(e_k) - f(0), one vmapped evaluation; affinity re-checked at a "
-        "generated excitation), the exact covariance L L^T and the mean f(0) are compared with (R) the textbook transition recursion "
-        "A P A^T + Q and (K) the independently derived continuous-time kernel (closed form for constant parameters, "
+        "generated excitation), the exact covariance L L^T and the mean f(0) are compared with (R) the textbook "
+        "transition recursion A P A^T + Q and (K) the independently derived continuous-time kernel (closed form for constant parameters, "
         "Van Loan matrix-exponential discretisation of the SDE otherwise); the generic generator is compared with the "
         "docstring recursion evaluated in NumPy and, fed the oracle's (A_k, chol Q_k), with the specialised processes; "
         "model classes are compared with the bare functions at the same latent input.")
@@ -52,10 +52,11 @@ LEVEL_TEXT = ("Search over generated grids, parameter shapes and parametrisation
               "so a wrong factor, exponent, ordering of the cumulative sums or a mis-indexed per-step parameter is "
               "seen on the first non-uniform case. Exploration: at most 12 steps, float64, host CPU.")
 LEVEL_NOTE = ("Trusted: numpy, scipy.linalg.expm, jax.vmap (the batch of unit excitations is evaluated in one call; "
-              "affinity is re-checked at a generated point in every case). Conventions where docstring and code differ in "
-              "notation (asperity as variance ratio, OU sigma as steady-state standard deviation) are taken from "
+              "affinity is re-checked at a generated point in every case). Conventions where docstring and code differ "
+              "in notation (asperity as variance ratio, OU sigma as steady-state standard deviation) are taken from "
               "the repository's tests / callers / the docstring's steady-state statement, see module docstring.")
-TECHNIQUE = "PBT: exact covariance via linearity (unit excitations) vs transition recursion + continuous-time kernel (closed form / Van Loan)"
+TECHNIQUE = ("PBT: exact covariance via linearity (unit excitations) vs transition recursion + continuous-time kernel "
+             "(closed form / Van Loan)")
 ASSUMPTIONS = [
     "float64, CPU; 1-12 steps; dt in [1/8, 2], sigma in [1/4, 3], gamma in [1/8, 2], asperity in [0, 2] (dyadic)",
     "integrated Wiener process: asperity enters the variance linearly, Q_xx = sigma^2 (dt^3/3 + asperity dt) "
@@ -70,6 +71,10 @@ ASSUMPTIONS = [
     "the upper-triangular factor used by the repository's own test",
     "prior key names name+'_x0', name+'_sigma', name+'_gamma', name+'_asperity' are read from the model's domain",
     "test vectors are dyadic numbers derived deterministically from an integer seed stored in the recipe",
+    "execution: mostly as one compiled (jax.jit) program per function with all parameters passed as arrays (compiled "
+    "once per shape signature), a generated fraction op-by-op (eager) with Python-float scalars; the quick tier "
+    "restricts eager process cases to 2 or 5 steps and all cases to a few step counts between 1 and 12 (thorough: "
+    "every count 1-12) to bound XLA compile time; a time budget that runs out skips cases, never alarms",
 ]
 
 TOL = 1e-9
